@@ -107,7 +107,10 @@ def run_case(case: dict) -> dict:
         if "file_parallelism" in readers.ACCEPTS[iface]:
             kwargs["file_parallelism"] = case["par"]
         outcome = None
-        with delays.inject(case["dseed"]) as stats:
+        # in some cases the fault is met late: the read of the damaged shard starts ~1 s after the others
+        slow = {str(shards[pos]): 0.9 for pos in positions} if case["vseed"] % 7 == 0 else None
+        obs["late_fault_cases"] += int(bool(slow))
+        with delays.inject(case["dseed"], slow_paths=slow) as stats:
             try:
                 examples = readers.read(fresh, iface, "train", shuffle=case["shuffle"], repeat=False, **kwargs)
                 got, _ = dsmod.ids_of(examples)
